@@ -80,7 +80,17 @@ func modelResolve(w *World, from *SFile, ref string) (tag, def string, ok bool) 
 		}
 	}
 	target := from
-	if file != "" {
+	if strings.HasPrefix(file, "http://") || strings.HasPrefix(file, "https://") {
+		target = nil
+		for _, f := range w.Files {
+			if f.URL == file {
+				target = f
+			}
+		}
+		if target == nil {
+			return "", "", false
+		}
+	} else if file != "" {
 		file = strings.TrimPrefix(file, "file://")
 		file = strings.ReplaceAll(file, RootPH, w.Root)
 		p := file
